@@ -131,7 +131,13 @@ func evalCase(c *Case) (kind, sig, msg string, removedApplied bool) {
 			keep = func(int) bool { return false }
 		}
 	}
-	got := res.Resolve(pc, c.Suffix, pub, unpub, opt)
+	// the processor that answers the historical request has already served the latest state and two other historical
+	// views of the same DID (a node keeps one processor object)
+	warm := []document.ResolutionOption{document.WithVersionTime(rfc3339(1 << 40))}
+	if len(c.Ops) > 0 {
+		warm = append(warm, document.WithVersionID(c.Ops[len(c.Ops)-1].Desc.Ref), document.WithVersionTime(rfc3339(c.Ops[0].Desc.Time)))
+	}
+	got := res.ResolveAfter(pc, c.Suffix, pub, unpub, warm, opt)
 	if got.Panic != "" {
 		return "C06/panic", "panic", got.Panic, false
 	}
